@@ -11,7 +11,7 @@ A cell is a flat dict:
   unsol    allow_unsolicited
   irt/scd  InResponseTo of response / of the tested confirmation: match | other-outstanding | unknown | absent
   confs    confirmation layout (CONF_LAYOUTS)
-  delivery plain | encrypted | plain+encrypted
+  delivery plain | encrypted | plain+encrypted | plain+2enc-first | plain+2enc-last | 2plain+enc
   outs     outstanding-requests variant (OUT_VARIANTS)
 """
 import base64
@@ -60,6 +60,9 @@ OUT_VARIANTS = {
 IRT = {"match": "req-1", "other-outstanding": "req-2", "unknown": "req-zzz", "absent": None}
 CONF_LAYOUTS = ["single", "nodata-first", "nodata-last", "match-then-scd", "scd-then-match"]
 DELIVERIES = ["plain", "encrypted", "plain+encrypted"]
+# several assertions (parse_assertion wants exactly one plain OR exactly one encrypted assertion): the tested
+# assertion is the 2nd/3rd one, the others are well-formed and name the response's request
+MULTI = ["plain+2enc-first", "plain+2enc-last", "2plain+enc"]
 
 DEFAULT = dict(layout="PR", arrive="post", dest="absent", pattern="unset", recip="entity", conv="none", unsol=False,
                irt="match", scd="match", confs="single", delivery="plain", outs="distinct")
@@ -158,9 +161,18 @@ def build(c):
         spec = R(irt=r_irt, destination=dest, assertions=[a])
     elif c["delivery"] == "encrypted":
         spec = R(irt=r_irt, destination=dest, assertions=[], encrypted=[a])
-    else:
+    elif c["delivery"] == "plain+encrypted":
         spec = R(irt=r_irt, destination=dest, assertions=[A(confirmations=[match])],
                  encrypted=[dict(a, id="a-2", name_id="subject-2")])
+    else:
+        good = lambda n: A(confirmations=[match], id="a-%d" % n, name_id="subject-%d" % n)
+        if c["delivery"] == "plain+2enc-first":
+            spec = R(irt=r_irt, destination=dest, assertions=[good(1)], encrypted=[dict(a, id="a-2", name_id="subject-2"), good(3)])
+        elif c["delivery"] == "plain+2enc-last":
+            spec = R(irt=r_irt, destination=dest, assertions=[good(1)], encrypted=[good(2), dict(a, id="a-3", name_id="subject-3")])
+        else:
+            assert c["delivery"] == "2plain+enc", c["delivery"]
+            spec = R(irt=r_irt, destination=dest, assertions=[good(1), dict(a, id="a-2", name_id="subject-2")], encrypted=[good(3)])
     case = SPCaseE(layout=c["layout"], arrive=c["arrive"], allow_unsolicited=c["unsol"], regex=PATTERNS[c["pattern"]],
                    outstanding=outs, conv_info=CONVS[c["conv"]])
     return case, spec
@@ -241,6 +253,10 @@ def block_solicited(quick):
                                 continue
                             out.append(cell(kind="S", irt=i, scd=s, unsol=u, confs=cl, delivery=dl, outs=o,
                                             arrive="redirect" if (len(out) % 3 == 2) else "post", recip="entity"))
+                        for dl in MULTI:
+                            if quick and (u or o in ("three", "empty-came-from") or cl in ("nodata-last", "match-then-scd")):
+                                continue
+                            out.append(cell(kind="S", irt=i, scd=s, unsol=u, confs=cl, delivery=dl, outs=o, recip="entity"))
     return out
 
 
@@ -249,7 +265,7 @@ def random_cell(rng, kind="X"):
                 dest=rng.choice(DESTS), pattern=rng.choice(list(PATTERNS) + ["unset"]), recip=rng.choice(RECIPS),
                 conv=rng.choice(list(CONVS)), unsol=rng.random() < 0.3,
                 irt=rng.choice(list(IRT) + ["match", "match"]), scd=rng.choice(list(IRT) + ["match", "match"]),
-                confs=rng.choice(CONF_LAYOUTS + ["single"]), delivery=rng.choice(DELIVERIES + ["plain"]),
+                confs=rng.choice(CONF_LAYOUTS + ["single"]), delivery=rng.choice(DELIVERIES + MULTI + ["plain", "plain"]),
                 outs=rng.choice(list(OUT_VARIANTS)))
 
 
